@@ -1408,6 +1408,11 @@ func Hydro(horizon int, g *GlobalVarsMain, local *InputSharedVars, hPath *HFileP
 	g.FELDW[horizonIndex] = local.FK[horizonIndex] + KRR/100
 	g.NORMFK[horizonIndex] = local.FK[horizonIndex]
 	g.PRGES[horizonIndex] = g.PRGES[horizonIndex] + KRG/100
+	// the organic-matter surcharge must not lift field capacity above the total pore volume
+	// (dense loams and clays with more than 4.6 % organic carbon)
+	if g.FELDW[horizonIndex] > g.PRGES[horizonIndex] {
+		g.FELDW[horizonIndex] = g.PRGES[horizonIndex]
+	}
 
 	if g.IZM/g.DZ.Index > g.N {
 		g.IZM = g.N * g.DZ.Index
